@@ -228,6 +228,21 @@ def random_module(rng: random.Random, max_claims=6, with_imports=True, syms=SYMS
                 tags.add('pending_subst_plug_instantiated')
         except AssertionError:
             pass
+    if rng.random() < 0.08:
+        # a pending substitution whose plug mentions the substituted variable itself, resolved on a pattern that re-binds that variable:
+        # (exists x . b)[t/x] is (exists x . b) - the binder shadows x, nothing is captured, whatever t mentions
+        try:
+            a_ = rng.choice((0, 1, 2)); x_ = rng.choice((0, 1))
+            s_ = P.Symbol(rng.choice(syms))
+            pend = P.ESubst(P.MetaVar(a_), P.EVar(x_), rng.choice((P.App(s_, P.EVar(x_)), P.App(P.EVar(x_), P.EVar(x_)), P.Implies(P.EVar(x_), s_))))
+            base_th = prop.imp_refl(pend) if rng.random() < 0.5 else prop.prop1_inst(pend, p_())
+            body = rng.choice((P.App(s_, P.EVar(x_)), P.EVar(x_), P.App(P.EVar(x_), P.EVar(2)), s_))
+            inst_ = {a_: P.Exists(x_, body)}
+            if admissible_inst(base_th.conc, inst_):
+                add(mod.dynamic_inst(base_th, inst_), f'dynamic_inst(pending substitution resolved on a shadowing binder: {pend} with {inst_[a_]})')
+                tags.add('pending_subst_resolved_on_shadowing_binder')
+        except AssertionError:
+            pass
     if rng.random() < 0.12:
         # binders and variables of the *other* kind that share a number (mu X_n over x_n, exists x_n over X_n): the two name spaces
         # must not be confused by freshness tests and substitutions; the result is offered to generalisation below
